@@ -689,6 +689,8 @@ class Dict(dict, base.Symbolic, pg_typing.CustomTyping):
     update = self._set_item_without_permission_check(key, value)
     if flags.is_change_notification_enabled() and update:
       self._notify_field_updates([update])
+    else:
+      self._sym_reset_content_caches()
 
   def __setattr__(self, name: str, value: Any) -> None:
     """Set attribute of this Dict.
@@ -735,6 +737,8 @@ class Dict(dict, base.Symbolic, pg_typing.CustomTyping):
         name, pg_typing.MISSING_VALUE)
     if flags.is_change_notification_enabled() and update:
       self._notify_field_updates([update])
+    else:
+      self._sym_reset_content_caches()
 
   def __delattr__(self, name: str) -> None:
     """Delete an attribute."""
@@ -795,6 +799,8 @@ class Dict(dict, base.Symbolic, pg_typing.CustomTyping):
           base.FieldUpdate(
               self.sym_path + key, self, None, value, pg_typing.MISSING_VALUE)
       ])
+    else:
+      self._sym_reset_content_caches()
     return key, value
 
   def clear(self) -> None:
@@ -833,6 +839,8 @@ class Dict(dict, base.Symbolic, pg_typing.CustomTyping):
               self.sym_path + k, self, field, old_value, new_value))
       if updates:
         self._notify_field_updates(updates)
+    else:
+      self._sym_reset_content_caches()
 
   def setdefault(self, key: Union[str, int], default: Any = None) -> Any:
     """Sets default as the value to key if not present."""
